@@ -187,20 +187,22 @@ def run(ctx):
 
     ALGO = "EasyFEA.Simulations.Solvers.AlgoType"
     amem = repo.enum_members(ALGO)
-    for inDim, want_t, algo in ((2, 1, "elliptic"), (3, 0, "elliptic"), (2, 1, "parabolic"), (2, 1, "newmark")):
-        if algo != "elliptic":
+    # thickness: a 2-D mesh carries it wherever it lies in space (planar: inDim 2; tilted / rotated out of its plane: inDim 3),
+    # a 3-D mesh does not -- the convention of the dedicated simulations (`if mesh.dim == 2`) the weak-form one must match
+    for (dim_, inDim), want_t, algo in (((2, 2), 1, "elliptic"), ((2, 3), 1, "elliptic"), ((3, 3), 0, "elliptic"), ((2, 2), 1, "parabolic"), ((2, 2), 1, "newmark")):
+        if algo != "elliptic" or (dim_, inDim) == (2, 3):
             r3.instance(fn=f.qualname)
-        obj = XObj(wf, dict(weakForms=SimpleNamespace(field=fld, thickness=t, computeK=Form("K"), computeC=Form("C"), computeM=Form("M"), computeF=Form("F")), mesh=SimpleNamespace(inDim=inDim, groupElem="g"), _verbosity=False, algo=EnumVal(repo.cls(ALGO), algo, amem[algo])))
+        obj = XObj(wf, dict(weakForms=SimpleNamespace(field=fld, thickness=t, computeK=Form("K"), computeC=Form("C"), computeM=Form("M"), computeF=Form("F")), mesh=SimpleNamespace(dim=dim_, inDim=inDim, groupElem="g"), dim=dim_, _verbosity=False, algo=EnumVal(repo.cls(ALGO), algo, amem[algo])))
         I = Interp(repo, extra_builtins={"Tic": lambda *a, **k: Sink()})
         out = I.call_function(f, [Opaque("pt")], self_obj=obj)
         tup = out.get("g") if isinstance(out, dict) else None
         ok = tup is not None and len(tup) == 4 and all(tup[i] is not None and is_zero(Poly.of(tup[i]) - Poly.var("KCMF"[i]) * (t**want_t)) for i in range(4))
         if ok:
-            r3.ok(f"inDim={inDim}, {algo}: (K, C, M, F) * thickness^{want_t}")
+            r3.ok(f"mesh dim {dim_} in space of dim {inDim}, {algo}: (K, C, M, F) * thickness^{want_t}")
         else:
-            r3.fail(f.qualname, f"slots:inDim{inDim}:{algo}", f.file, f.lineno, "WeakForms.Construct_local_matrix_system", f"inDim={inDim}, time scheme {algo}: slots are {tup!r}; expected (K, C, M, F) each times thickness^{want_t} (the assembled matrices are kept across a change of scheme: a form left out here is missing from the transient that follows a static solve)")
+            r3.fail(f.qualname, f"slots:dim{dim_}in{inDim}:{algo}", f.file, f.lineno, "WeakForms.Construct_local_matrix_system", f"mesh of dimension {dim_} lying in a space of dimension {inDim}, time scheme {algo}: slots are {tup!r}; expected (K, C, M, F) each times thickness^{want_t} (the assembled matrices are kept across a change of scheme: a form left out here is missing from the transient that follows a static solve)")
     # None forms stay None
-    obj = XObj(wf, dict(weakForms=SimpleNamespace(field=fld, thickness=t, computeK=Form("K"), computeC=None, computeM=None, computeF=None), mesh=SimpleNamespace(inDim=2, groupElem="g"), _verbosity=False, algo=EnumVal(repo.cls(ALGO), "elliptic", amem["elliptic"])))
+    obj = XObj(wf, dict(weakForms=SimpleNamespace(field=fld, thickness=t, computeK=Form("K"), computeC=None, computeM=None, computeF=None), mesh=SimpleNamespace(dim=2, inDim=2, groupElem="g"), dim=2, _verbosity=False, algo=EnumVal(repo.cls(ALGO), "elliptic", amem["elliptic"])))
     I = Interp(repo, extra_builtins={"Tic": lambda *a, **k: Sink()})
     out = I.call_function(f, [Opaque("pt")], self_obj=obj)
     r3.instance(fn=f.qualname)
